@@ -28,7 +28,7 @@ CHECKS["C13"] = dict(
     coverage=_cov("complete grid output_size -2..256 x 20 prefix arguments (16 tags, 'ab', NULL, unknown, full settings) x 29 count "
                   "classes x nrbytes 0..70; every cell is one crypt_gensalt_rn call inside a canaried arena, plus one "
                   "192-byte reference call per column; distinct_nontrivial = distinct (output_size, returned setting) "
-                  "pairs among successful cells"),
+                  "pairs among successful cells; since rounds 5-7: an rbytes == NULL column (entropy seam), arbitrary errno on entry, and shorter-than-full results must keep tag and cost field complete plus one salt character and (within budget) be accepted by crypt_rn"),
     assumptions=["sizes larger than the real buffer are caller contract violations and are not exercised",
                  "random-byte content is one fixed position-distinct pattern; C12 varies the bytes"],
     nonvacuous=lambda s, t: None if s.get("successes", 0) > 1000 and s.get("failures", 0) > 1000 else "no successes or no failures seen",
@@ -88,7 +88,7 @@ CHECKS["C10"] = dict(
                   "of the small ranges) x nrbytes {0..70,128,255,256} x 3 byte fills: crypt_gensalt, crypt_gensalt_rn(192), (256), "
                   "crypt_gensalt_ra and a repeat are compared; shape/tag/checksalt on every success; on the hashing sub-grid (cost within "
                   "budget) crypt_rn with 3 phrase lengths must succeed keeping the setting as literal prefix and crypt(P, crypt_gensalt()) "
-                  "uncopied must agree; distinct_nontrivial = distinct generated settings"),
+                  "uncopied must agree; distinct_nontrivial = distinct generated settings; since rounds 6-7: a byte-value sweep (256 constant + 64/256 stepped fills x every tag, all hashed), nrbytes 0..256 (quick: dense 129..200 and every 5th) and the same request into 384- and 1024-byte buffers under the same obligations"),
     assumptions=["hashing is done only where the decoded cost is within the compute budget (bcrypt<=6/8, rounds<=20000, <=32/256 MiB)",
                  "method selected by a prefix argument is modelled from crypt.5 (leading tag; NULL = $y$)"],
     nonvacuous=lambda s, t: None if s.get("hashes", 0) > 1000 and s.get("generated", 0) > 10000 else "too few hashes or generated settings",
@@ -110,7 +110,7 @@ CHECKS["C01"] = dict(
                   "12.6 k quick / 32 k thorough, minus those above the compute budget) x boundary phrase lengths x fills A,P; slab c: DES "
                   "salts (256 quick / all 4096 thorough) x 10 setting lengths x 23 phrase lengths; slab d: for successes the hash part "
                   "replaced by 3 same-length texts of the method's hash alphabet and truncated to the setting part; "
-                  "distinct_nontrivial = distinct successful result strings"),
+                  "distinct_nontrivial = distinct successful result strings; every call is entered with arbitrary object contents and an arbitrary errno; slab e: salt lengths up to where the echoed setting alone exceeds 384 for sunmd5, scrypt and five sha1crypt iteration widths; the grammar includes the yescrypt (N,p) grid around N/p = 3..4; thorough adds one nine-digit rounds= per sha-crypt method"),
     assumptions=["only successful first calls oblige anything",
                  "settings whose decoded cost exceeds the compute budget are not hashed",
                  "phrase contents come from two fills (ASCII cycle, position-distinct 8-bit)"],
@@ -179,7 +179,9 @@ CHECKS["C05"] = dict(
         rule="inputs: 3 base settings per method (two bare forms and a full hash) x every position x every byte value 1..255 and every "
              "truncation; 14 fixed invalid classes (tokens, NULLs, 512/513/600-byte phrases, ...) x 16 methods; every '$'+1- and 2-character "
              "unknown tag; crypt_rn sizes {INT_MIN,-1,0..4,383,384,sizeof-1}; each through crypt_rn/crypt_r/crypt_ra/crypt from 3 prior object "
-             "states (quick: all 12 combinations for the property's special bytes and truncations, 2 combinations otherwise; thorough: all). "
+             "states, and through crypt_ra on a handle it must first allocate (NULL) or replace (200 bytes holding nothing / a hash / a token), "
+             "every call entered with an arbitrary errno (0, ENOENT, EAGAIN, EPERM) "
+             " (quick: all 12 combinations for the property's special bytes and truncations, 2 combinations otherwise; thorough: all). "
              "histories: breadth-first search to closure over 3 entry points x 8 requests x 2 objects, state = hash of the objects' output/"
              "internal/reserved/initialized fields; distinct_nontrivial = distinct (setting, entry point, prior state) failing calls",
         states=int(stats.get("history_states", 0)), transitions=int(stats.get("history_transitions", 0)),
@@ -210,7 +212,7 @@ CHECKS["C03"] = dict(
                   "<= 4 (thorough) over a 4-letter alphabet hash pairwise differently; (d) every single-character change of the salt (3 "
                   "replacements) and a cost step, for 2 phrases. Oracle: crypt(P',H) != H; for (d) different canonical setting => different hash part. "
                   "quick thins positions/lengths for sha256/512crypt, sunmd5, bcrypt to the boundary set plus every 8th; "
-                  "distinct_nontrivial = distinct results of perturbed phrases + small-scope phrases"),
+                  "distinct_nontrivial = distinct results of perturbed phrases + small-scope phrases; (e) a 0x80 / 0xFF byte at every position with every other position perturbed; (f) every salt length of the accepted range x positions plus a cost step at each length; (g) every value 1..200 of yescrypt r, p, t pairwise"),
     assumptions=["8th-bit perturbations are not applied to DES-based methods, $2x$ and $2a$ (documented exemptions); their phrases are 7-bit",
                  "equivalences inherent to the specified algorithms (HMAC key vs SHA1(key) for sha1crypt) are outside the quantifier"],
     nonvacuous=lambda s, t: None if s.get("perturbations", 0) > 20000 and s.get("salt_changes", 0) > 400 else "too few perturbations",
@@ -231,7 +233,7 @@ CHECKS["C16"] = dict(
                   "length every two-way split (<= 320 quick, all thorough), byte-at-a-time, 7 strides, every three-way split (<= 72 quick / 160 "
                   "thorough), source alignments 1..15; HMAC-SHA1 and HMAC-SHA256: key 0..200 x message 0..200 (+ streamed two-way splits); "
                   "HMAC-Streebog-256: key 32..64 x message 0..300 x 2 fills; PBKDF2-HMAC-SHA256: 16 password x 16 salt boundary lengths x "
-                  "iterations {1,2,3,10,50} (all 1..50 thorough) x 10 dkLen; distinct_nontrivial = distinct reference digests"),
+                  "iterations {1,2,3,10,50} (all 1..50 thorough) x 10 dkLen; distinct_nontrivial = distinct reference digests; PBKDF2: every salt length 0..200 x 16 password lengths and every password length 0..200 x 19 salt lengths"),
     assumptions=["libgcrypt 1.10 is the reference implementation of the standards", "message contents: 4 fixed fills (position-distinct, all 0xff, aligned 0xff runs, 0xff with varying tail)"],
     nonvacuous=lambda s, t: None if s.get("two_way_splits", 0) > 100000 and s.get("hmac_cases", 0) > 30000 and s.get("pbkdf2_cases", 0) > 5000 else "too few cases",
     deadline=dict(quick=300, thorough=1700),
@@ -256,7 +258,7 @@ CHECKS["C02"] = dict(
                   "layer, with an independent specification-level model; job c02bcrypt: 4 bcrypt subtypes x costs x 2-6 salts x (every phrase length "
                   "0..89 thorough / 33 boundary lengths quick, 3 fills incl. all-8-bit and mixed, an 8-bit byte at every position of keys of "
                   "length 1..8, the published sign-extension vectors) against a Python eksblowfish model incl. the $2x$ bug and the $2a$ "
-                  "counter-measure; distinct_nontrivial = distinct successful hash strings"),
+                  "counter-measure; distinct_nontrivial = distinct successful hash strings; since rounds 5-7: salt-length sweeps up to each method's limit (sha1crypt 1..325, scrypt 0..300, sunmd5, every encodable yescrypt length), yescrypt cost fields of both encoding sizes, garbage pattern and entry errno derived from the case"),
     assumptions=["libxcrypt 4.4.33 as installed in the image is the cross-release reference; libgcrypt 1.10 provides the digests for the models",
                  "yescrypt RW/WORM flavours and sunmd5 rest on the released library only (identical across releases, not re-derived from the papers)",
                  "bcrypt model: ref/ref_bcrypt.py, boxes derived from pi at run time, checked against six published crypt_blowfish vectors on every run; costs 4..5 quick, 4..7 thorough",
@@ -313,8 +315,9 @@ CHECKS["C14"] = dict(
                        dict(name="c14tla", variant="o2", script=_c14tla.run)],
     coverage=_mc_cov("explicit-state BFS on the real crypt_ra/crypt_gensalt_ra under the allocator seam: 17 start states of (*data,*size) "
                      "(NULL with size 0/stale/negative; exact, larger; 1-, 100-, sizeof-1-byte blocks with true/zero/negative recorded size) x "
-                     "alphabet of 12 operations (3 succeeding hashes, bad character, unknown prefix, 600-byte phrase, NULL setting, caller "
-                     "free+reset, gensalt_ra ok/fail, and crypt_ra / gensalt_ra while the allocator fails); state = (real block size, recorded size, block contents, live-block count), "
+                     "alphabet of 13 operations (3 succeeding hashes, bad character, unknown prefix, 600-byte phrase, NULL setting, caller "
+                     "free+reset, gensalt_ra ok/fail, crypt_ra with its first and with its second allocator request failing, gensalt_ra with each of "
+                     "its allocator requests failing in turn; an undersized block must already be erased when the library first asks the allocator for memory); state = (real block size, recorded size, block contents, live-block count), "
                      "re-materialised by replaying the shortest history; depth cap 6, closure reported per start state; "
                      "every transition is an execution of the implementation checked against the protocol model, and every reached state ends "
                      "with the caller's single free (ledger must be empty); second job: tla/CryptRa.tla (abstract state: block class x recorded-size class x "
@@ -359,7 +362,7 @@ CHECKS["C15"] = dict(
              "nothing library-made left live, scratch erased, and an identical follow-up call.",
         note="allocator/mapping seam defined in the harness; huge pages are reported unavailable as in the sandbox kernel; corpus phrases fixed.",
         technique="exhaustive single- and pair-fault enumeration over the allocator/mapping request sequence of each call on the real code",
-        ref="DESIGN.md 3/C15"),
+        ref="DESIGN.md 3/C15; a result after a failed request is accepted only when the failed request was the optional huge-page attempt; releases that do not match an allocation are reported for every entry point; partial munmap keeps the tail in the ledger"),
 )
 
 CHECKS["C07"] = dict(
@@ -448,7 +451,7 @@ CHECKS["C09"] = dict(
                   "untouched; no 6-byte window of the phrase in the encodings {raw, UCS-2LE, <<1, xor 0x36, xor 0x5c, byte-swapped 32/64-bit "
                   "words} in the object, in any block or mapping at release time, in live blocks, or (job on the -O0 build) on the stack; "
                   "crypt_gensalt*(rbytes==NULL) x 16 prefixes x 3 entry points: the drawn bytes do not survive; 7 primitives x 10 lengths: context "
-                  "all-zero after Final; 108 three-call histories; distinct_nontrivial = distinct clean cases"),
+                  "all-zero after Final; 108 three-call histories; distinct_nontrivial = distinct clean cases; a request-time callback checks that an undersized crypt_ra block is already erased when the library first asks the allocator for memory (also with that allocation failing)"),
     assumptions=["registers, -O2 spill slots and kernel copies are outside the property (it names -O0); the stack scan runs on the gcc -O0 build only",
                  "mappings larger than 1 MiB are scanned in their first and last 256 KiB at munmap time"],
     nonvacuous=lambda s, t: None if s.get("validated_calls", 0) > 1000 and s.get("rejected_calls", 0) > 100 and s.get("max_stack_used", 0) > 2000 else "too few cases or no stack use observed",
@@ -515,7 +518,7 @@ CHECKS["C20"] = dict(
              "compared between the released library and the freshly built shared object.",
         note="gcc -O2 -fPIC -DPIC build linked with the tree's generated version script; the released 4.4.33 library and header in the image are the reference.",
         technique="exhaustive enumeration of the binary interface (symbol versions, layout, constants) and differential old-client replay against the released library",
-        ref="DESIGN.md 3/C20"),
+        ref="DESIGN.md 3/C20; plus the 29 export triples of the pinned configuration (c20/upstream_exports.txt), objects placed at offsets 0..15 between canaries, an nrbytes 0..72 sweep, and an object moved between setkey_r and encrypt_r"),
 )
 
 
@@ -545,5 +548,5 @@ CHECKS["C19"] = dict(
              "working tree and compared request-by-request with the full build (enabled) or the unknown-tag behaviour (disabled).",
         note="gcc -O1 static builds through the same content-hashed object cache; cluster reduction argued from the preprocessor guards, derived mechanically on every run.",
         technique="exhaustive enumeration of configuration subsets (generator outputs for all 2^16-1, compiled libraries per interaction-cluster power set) with differential comparison against the full build",
-        ref="DESIGN.md 3/C19"),
+        ref="DESIGN.md 3/C19; transcripts run on pattern-filled objects and include 8-bit phrases and checksalt(preferred)"),
 )
